@@ -5,14 +5,18 @@
 (* pydl.pydlutils.bspline.bspline (constructor, value, intrv, bsplvn).                      *)
 (* root -> seed -> cases so that all TLC workers share the work.                            *)
 EXTENDS BSplineBasis, TLC
-CONSTANTS Families,   \* subset of {"eval", "order", "rep", "full", "opt"}
+CONSTANTS Families,   \* subset of {"eval", "order", "rep", "full", "intx", "opt"}
           BkMax,      \* integer breakpoints are drawn from 0..BkMax
           Nords,      \* orders explored
           SpreadSel,  \* "all": bkspread 1/2 and 2 besides 1 in the eval family; "none": only 1
           RepLen,     \* the "rep" family takes breakpoint sequences of length 3..RepLen
           OrderLen,   \* the "order" family enumerates every sequence of 1..OrderLen points of its pool
           FullNords, FullExtra,  \* "full" family: orders and numbers of cells beyond the minimum
+          IntxMax,    \* "intx" family: doubled integer breakpoints from 2*(0..IntxMax), all integer points
+          FormAllNs,  \* data sizes for which an option case is enumerated in EVERY form that can carry its data;
+                      \* for the other sizes one form per case, rotating
           Ns,         \* data sizes of the option sweeps
+          OptNords,   \* orders of the option sweeps
           AgreeNords  \* orders for which the bare recursion is compared with the pruned one
 VARIABLES c, exp
 
@@ -34,6 +38,17 @@ Stride(L) == CHOOSE s \in {7, 5, 3, 11, 13} : IGCD(s, L) = 1
 Asc(L) == Tup([k \in 1..L |-> k])
 Desc(L) == Tup([k \in 1..L |-> L + 1 - k])
 Mix(L) == [k \in 1..L |-> ((k * Stride(L)) % L) + 1] \o <<2, L - 1, 2>>
+(* an evaluation order: the indices into P in the order handed over, the form (representation) *)
+(* of the array that carries them, and whether numpy computes in single precision for that form *)
+Ord(idx, form) == [idx |-> idx, form |-> form, single |-> SinglePrecision(form)]
+PtsOf(P, idx) == Tup([k \in 1..Len(idx) |-> P[idx[k]]])
+Scr(idx) == IF Len(idx) < 2 THEN idx ELSE Tup([k \in 1..Len(idx) |-> idx[((k * Stride(Len(idx))) % Len(idx)) + 1]])
+(* the points of P a form can carry, scrambled, in that form (nothing if there are none) *)
+SubOrder(P, form) ==
+  LET ii == SeqOfSet({k \in 1..Len(P) : Representable(form, P[k])}) IN IF ii = <<>> THEN <<>> ELSE <<Ord(Scr(ii), form)>>
+(* idx in the n-th form that can carry its points *)
+FormOrder(P, idx, n) == Ord(idx, PickForm(PtsOf(P, idx), n))
+IntFormOf(n) == <<"i8", "i4", "i2", "u1">>[(n % 4) + 1]
 (* coefficient vectors: a ramp, a pseudo-random integer vector, one basis function *)
 Coefs(n) == << Tup([k \in 1..n |-> k]), Tup([k \in 1..n |-> ((k * k * 7 + 3 * k) % 11) - 5]),
                Tup([k \in 1..n |-> IF k = (n \div 2) + 1 THEN 1 ELSE 0]) >>
@@ -61,7 +76,10 @@ EvalStep ==
          P == Pool(MinOf(c.S), MaxOf(c.S), c.nord)
          L == Len(P)
      IN c' = EvalCase("eval", "bkpt", c.nord, bk, c.spread, t, P,
-                      IF c.spread = One THEN <<Asc(L), Desc(L), Mix(L)>> ELSE <<Mix(L)>>)
+                      IF c.spread = One
+                      THEN <<Ord(Asc(L), "f8"), Ord(Desc(L), "f8swap"), Ord(Mix(L), "f8strided")>>
+                           \o SubOrder(P, IntFormOf(c.nord + Cardinality(c.S))) \o SubOrder(P, "f4")
+                      ELSE <<Ord(Mix(L), "f8readonly")>> \o SubOrder(P, IntFormOf(c.nord + Cardinality(c.S))))
   /\ exp' = EvalExp(c')
 
 (* ---- family "order": every sequence of 1..OrderLen points from a five-point pool ---- *)
@@ -73,9 +91,11 @@ OrderStep ==
   /\ LET bk == Ints(SeqOfSet(c.S))
          t == Pad(bk, c.nord, One)
          P == OrderPool(c.S)
-     IN \E f \in [1..c.len -> 1..5] :
-          /\ f[1] = c.first
-          /\ c' = EvalCase("order", "bkpt", c.nord, bk, One, t, P, <<Tup(f)>>)
+     IN IF c.len = 0                  \* no point at all: the evaluation returns empty arrays
+        THEN c' = EvalCase("order", "bkpt", c.nord, bk, One, t, P, <<Ord(<<>>, "f8")>>)
+        ELSE \E f \in [1..c.len -> 1..5] :
+               /\ f[1] = c.first
+               /\ c' = EvalCase("order", "bkpt", c.nord, bk, One, t, P, <<FormOrder(P, Tup(f), c.first + c.len + c.nord)>>)
   /\ exp' = EvalExp(c')
 
 (* ---- family "rep": non-decreasing integer breakpoints with repeats (explicit bkpt) ---- *)
@@ -90,7 +110,7 @@ RepStep ==
   /\ LET bk == Ints(c.s)
          t == Pad(bk, c.nord, One)
          P == Pool(c.s[1], c.s[Len(c.s)], c.nord)
-     IN c' = EvalCase("rep", "bkpt", c.nord, bk, One, t, P, <<Mix(Len(P))>>)
+     IN c' = EvalCase("rep", "bkpt", c.nord, bk, One, t, P, <<FormOrder(P, Mix(Len(P)), c.nord + Len(c.s) + c.s[2])>>)
   /\ exp' = EvalExp(c')
 
 (* ---- family "full": any strictly increasing knot vector (cell widths 1 or 2), set directly ---- *)
@@ -105,7 +125,24 @@ FullStep ==
           /\ LET ti == Tup([k \in 1..m |-> Cumul(w, k - 1)])
                  t == Ints(ti)
                  P == Pool(ti[c.nord], ti[m - c.nord + 1], c.nord)
-             IN c' = EvalCase("full", "direct", c.nord, SubSeq(t, c.nord, m - c.nord + 1), One, t, P, <<Mix(Len(P))>>)
+             IN c' = EvalCase("full", "direct", c.nord, SubSeq(t, c.nord, m - c.nord + 1), One, t, P,
+                              <<FormOrder(P, Mix(Len(P)), ti[m])>>)
+  /\ exp' = EvalExp(c')
+
+(* ---- family "intx": the eval family on a doubled grid, so that EVERY point (knot hits, cell  ---- *)
+(* ---- midpoints, just outside) is an integer and can be handed over in the integer forms      ---- *)
+IntxSeed(nord, S) == [kind |-> "seed", fam |-> "intx", nord |-> nord, S |-> S]
+IntxStep ==
+  /\ c.kind = "seed" /\ c.fam = "intx"
+  /\ LET bk == Ints(SeqOfSet({2 * a : a \in c.S}))
+         t == Pad(bk, c.nord, One)
+         a == 2 * MinOf(c.S)
+         b == 2 * MaxOf(c.S)
+         P == Tup([k \in 1..(b - a + 3) |-> I(a - 2 + k)])
+         L == Len(P)
+     IN c' = EvalCase("intx", "bkpt", c.nord, bk, One, t, P,
+                      <<Ord(Asc(L), "i8"), Ord(Desc(L), "i4"), Ord(Mix(L), "i2")>> \o SubOrder(P, "u1")
+                      \o <<Ord(Mix(L), "f4"), Ord(Asc(L), "f8")>>)
   /\ exp' = EvalExp(c')
 
 (* ---- family "opt": the breakpoint options on small data sets ---- *)
@@ -116,10 +153,22 @@ Data(N, v) ==
     [] v = "clust" -> Tup([k \in 1..N |-> Q((k - 1) * (k - 1), 4)])
     [] v = "ties" -> Tup([k \in 1..N |-> I((k - 1) \div 2)])
     [] v = "toptie" -> Tup([k \in 1..N |-> IF k = N THEN I(N) ELSE IF k >= N - 3 THEN I(N - 4) ELSE I(k - 1)])
-DataVariants(N) == {"grid", "rev", "shuf", "clust"} \cup (IF N >= 3 THEN {"ties"} ELSE {}) \cup (IF N >= 5 THEN {"toptie"} ELSE {})
+    [] v = "const" -> Tup([k \in 1..N |-> I(3)])          \* a data range of zero width
+DataVariants(N) == IF N = 1 THEN {"grid"}                   \* a single datum
+                   ELSE {"grid", "rev", "shuf", "clust", "const"} \cup (IF N >= 3 THEN {"ties"} ELSE {})
+                        \cup (IF N >= 5 THEN {"toptie"} ELSE {})
 OptSeed(N, v) == [kind |-> "seed", fam |-> "opt", N |-> N, v |-> v]
-OptCase(N, v, data, nord, spread, opt, arg) ==
-  [kind |-> "opt", N |-> N, v |-> v, data |-> data, nord |-> nord, spread |-> spread, opt |-> opt, arg |-> arg]
+(* form: the representation of the data array; aform: of the bkpt / placed array *)
+OptCase(N, v, data, nord, spread, opt, arg, form, aform) ==
+  [kind |-> "opt", N |-> N, v |-> v, data |-> data, nord |-> nord, spread |-> spread, opt |-> opt, arg |-> arg,
+   form |-> form, aform |-> aform]
+DataForms(data, n) == IF Len(data) \in FormAllNs THEN {f \in Forms : RepresentsAll(f, data)} ELSE {PickForm(data, n)}
+RECURSIVE HashQ(_)
+HashQ(q) == IF q = <<>> THEN 0 ELSE (q[1][1] + 3 * q[1][2] + 5 * HashQ(Tail(q))) % 1009
+OptExp(cc) == [knots |-> Knots(cc.data, cc.nord, cc.spread, cc.opt, cc.arg), pts |-> <<>>,
+               exact |-> PinnedDown(cc.data, cc.opt),
+               devs |-> DevsOf(cc.data, cc.opt, cc.arg)
+                        \cup (IF Dev_BreakpointArrayInPlace(cc.opt, cc.aform) THEN {"D-C08-7"} ELSE {})]
 PlacedPool(lo, hi) == {QSub(lo, One), lo, QAdd(lo, One), QMul(Q(1, 2), QAdd(lo, hi)), QSub(hi, One), hi, QAdd(hi, One)}
 RECURSIVE QSeqOfSet(_)
 QSeqOfSet(S) == IF S = {} THEN <<>>
@@ -127,31 +176,43 @@ QSeqOfSet(S) == IF S = {} THEN <<>>
 ExplicitBks(lo, hi) ==
   LET mid == QMul(Q(1, 2), QAdd(lo, hi)) IN
   { <<lo, hi>>, <<lo, mid, hi>>, <<QSub(lo, One), mid, QAdd(hi, I(2))>>,
-    <<QAdd(lo, Q(1, 4)), mid, QSub(hi, Q(1, 4))>>, <<QAdd(lo, Q(1, 4)), QAdd(hi, One)>> }
+    <<QAdd(lo, Q(1, 4)), mid, QSub(hi, Q(1, 4))>>, <<QAdd(lo, Q(1, 4)), QAdd(hi, One)>>,
+    <<I(Floor(lo) + 1), I(Floor(lo) + 2), I(Floor(hi) + 3)>> } \cup
+  (IF Floor(lo) + 1 < Floor(hi) THEN {<<I(Floor(lo) + 1), I(Floor(hi))>>} ELSE {})
 OptStep ==
   /\ c.kind = "seed" /\ c.fam = "opt"
   /\ LET data == Data(c.N, c.v)
          lo == QMinSeq(data)
          hi == QMaxSeq(data)
-     IN \E nord \in Nords :
-          \/ \E sp \in {Q(1, 2), One, Q(3, 2), I(2), I(5), I(20)} : c' = OptCase(c.N, c.v, data, nord, One, "bkspace", sp)
+     IN \E nord \in OptNords :
+          \/ \E sp \in {Q(1, 2), One, Q(3, 2), I(2), I(5), I(20)} : \E form \in DataForms(data, c.N + nord + sp[1] + sp[2]) :
+               c' = OptCase(c.N, c.v, data, nord, One, "bkspace", sp, form, "f8")
           \/ \E n \in 0..7 : \E spread \in (IF c.v = "grid" THEN {One, Q(1, 2), I(2)} ELSE {One}) :
-               c' = OptCase(c.N, c.v, data, nord, spread, "nbkpts", n)
-          \/ \E e \in 1..(c.N + 1) : c' = OptCase(c.N, c.v, data, nord, One, "everyn", e)
-          \/ /\ c.v \in {"grid", "rev"} /\ nord \in {MinOf(Nords), MaxOf(Nords)}
-             /\ \E S \in SUBSET PlacedPool(lo, hi) : c' = OptCase(c.N, c.v, data, nord, One, "placed", QSeqOfSet(S))
-          \/ /\ c.v \in {"grid", "shuf"}
-             /\ \E bk \in ExplicitBks(lo, hi) : c' = OptCase(c.N, c.v, data, nord, One, "bkpt", bk)
-  /\ exp' = [knots |-> Knots(c'.data, c'.nord, c'.spread, c'.opt, c'.arg), pts |-> <<>>,
-             exact |-> PinnedDown(c'.data, c'.opt), devs |-> DevsOf(c'.data, c'.opt, c'.arg)]
+               \E form \in DataForms(data, c.N + nord + n + spread[1]) :
+                 c' = OptCase(c.N, c.v, data, nord, spread, "nbkpts", n, form, "f8")
+          \/ \E e \in 1..(c.N + 1) : \E form \in DataForms(data, c.N + nord + e) :
+               c' = OptCase(c.N, c.v, data, nord, One, "everyn", e, form, "f8")
+          \/ /\ c.v \in {"grid", "rev"} /\ nord \in {MinOf(OptNords), MaxOf(OptNords)}
+             /\ \E S \in SUBSET PlacedPool(lo, hi) : \E spread \in (IF c.N % 2 = 1 THEN {One, Q(1, 2)} ELSE {One}) :
+                  LET arg == QSeqOfSet(S) IN
+                  c' = OptCase(c.N, c.v, data, nord, spread, "placed", arg,
+                               PickForm(data, nord + HashQ(arg)), PickForm(arg, c.N + spread[2] + HashQ(arg)))
+          \/ /\ c.v \in {"grid", "shuf", "clust"} /\ QLt(lo, hi)
+             /\ \E bk \in {z \in ExplicitBks(lo, hi) : NonDecreasing(z)} : \E form \in DataForms(data, c.N + nord + HashQ(bk)) :
+                  c' = OptCase(c.N, c.v, data, nord, One, "bkpt", bk, form, PickForm(bk, c.N + nord + Len(bk)))
+  /\ exp' = OptExp(c')
 
 RootStep ==
   /\ c = Root
   /\ \/ /\ "eval" \in Families
         /\ \E nord \in Nords : \E S \in {Z \in BkSets : Fits(nord, Z)} : \E spread \in ({One} \cup (IF nord <= 4 THEN Spreads ELSE {})) : c' = EvalSeed(nord, S, spread)
      \/ /\ "order" \in Families
-        /\ \E nord \in {1, 2, 4} \cap Nords : \E S \in OrderBk : \E len \in 1..OrderLen : \E first \in 1..5 :
-             c' = OrderSeed(nord, S, len, first)
+        /\ \E nord \in {1, 2, 4} \cap Nords : \E S \in OrderBk :
+             \/ \E len \in 1..OrderLen : \E first \in 1..5 : c' = OrderSeed(nord, S, len, first)
+             \/ c' = OrderSeed(nord, S, 0, 0)
+     \/ /\ "intx" \in Families
+        /\ \E nord \in Nords : \E S \in {Z \in SUBSET (0..IntxMax) : Cardinality(Z) \in 2..4 /\ Fits(nord, Z)} :
+             c' = IntxSeed(nord, S)
      \/ /\ "rep" \in Families
         /\ \E nord \in Nords : \E s \in RepBks : c' = RepSeed(nord, s)
      \/ /\ "full" \in Families
@@ -161,7 +222,7 @@ RootStep ==
   /\ exp' = NoExp
 
 Init == c = Root /\ exp = NoExp
-Next == RootStep \/ EvalStep \/ OrderStep \/ RepStep \/ FullStep \/ OptStep
+Next == RootStep \/ EvalStep \/ OrderStep \/ RepStep \/ FullStep \/ IntxStep \/ OptStep
 
 IsEval == c.kind = "eval"
 IsOpt == c.kind = "opt"
@@ -198,15 +259,30 @@ C08_RangeIsCovered == IsEval =>
   \A p \in Pts : /\ RangeIsCovered(exp.knots, c.nord, c.P[p])
                  /\ Len(exp.pts[p].cand) <= 2
                  /\ ~exp.pts[p].inr => exp.pts[p].cand = <<>>
-C08_DefinitionsAgree == (IsEval /\ c.nord \in AgreeNords /\ c.fam \in {"eval", "rep", "full"}) =>
+C08_DefinitionsAgree == (IsEval /\ c.nord \in AgreeNords /\ c.fam \in {"eval", "rep", "full", "intx"}) =>
   \A p \in {q \in Pts : c.nord <= 4 \/ q % 4 = 1} : DefinitionsAgree(exp.knots, c.nord, c.P[p])
 C08_Continuity == IsEval =>
   \A p \in Pts : Mult(exp.knots, c.P[p]) < c.nord =>
      \A k \in 1..Len(exp.pts[p].cand) : exp.pts[p].cand[k].vals = exp.pts[p].cand[1].vals
 C08_ProcedureEqualsDefinition == IsEval =>
   \A o \in 1..Len(c.orders) :
-     ProcedureEqualsDefinition(exp.knots, c.nord, Tup([k \in 1..Len(c.orders[o]) |-> c.P[c.orders[o][k]]]))
+     ProcedureEqualsDefinition(exp.knots, c.nord, PtsOf(c.P, c.orders[o].idx))
 C08_MaskExactlyOutside == IsEval =>
   /\ MaskExactlyOutside(exp.knots, c.nord, c.P)
   /\ \A p \in Pts : exp.pts[p].inr = MaskOf(exp.knots, c.nord, c.P[p])
+(* every array is handed over in a form that carries its values exactly *)
+C08_FormsRepresent ==
+  /\ IsEval => \A o \in 1..Len(c.orders) :
+        /\ c.orders[o].form \in Forms /\ RepresentsAll(c.orders[o].form, PtsOf(c.P, c.orders[o].idx))
+        /\ c.orders[o].single = SinglePrecision(c.orders[o].form)
+  /\ IsOpt => /\ c.form \in Forms /\ RepresentsAll(c.form, c.data)
+              /\ c.aform \in Forms /\ (c.opt \in {"bkpt", "placed"} => RepresentsAll(c.aform, c.arg))
+(* the specified outcome is a function of the values alone: re-labelling every array of a case  *)
+(* with another form leaves it unchanged                                                         *)
+Reform(cc, f) == IF cc.kind = "opt" THEN [cc EXCEPT !.form = f, !.aform = f]
+                 ELSE [cc EXCEPT !.orders = Tup([o \in 1..Len(cc.orders) |-> Ord(cc.orders[o].idx, f)])]
+C08_FormIndependent ==
+  /\ (IsOpt /\ c.nord <= 2) => \A f \in {"i8", "f8readonly"} :
+        LET o == OptExp(Reform(c, f)) IN o.knots = exp.knots /\ o.exact = exp.exact
+  /\ (IsEval /\ c.fam \in {"order", "intx"} /\ c.nord <= 3) => \A f \in {"f8", "i2"} : EvalExp(Reform(c, f)) = exp
 =============================================================================
